@@ -134,8 +134,12 @@ class C19(Prop):
                 cwd = os.readlink("/proc/%s/cwd" % pid)
             except OSError:
                 continue
-            if cwd.startswith(run_root):
-                mine.append(int(pid))
+            if cwd.startswith(run_root + os.sep):
+                # scratch directories are named <pid of the peer that started the emulator>-…: only orphans are killed
+                # (another check may be running its own conversations at the same time)
+                owner = cwd[len(run_root) + 1:].split(os.sep, 1)[0].split("-", 1)[0]
+                if not (owner.isdigit() and os.path.exists("/proc/" + owner)):
+                    mine.append(int(pid))
         for pid in mine:
             try:
                 os.kill(pid, signal.SIGKILL)
